@@ -170,7 +170,7 @@ def _site(depth=8):
     return hash(tuple(sig))
 
 
-def explore(fn, max_paths=20000, stats=None):
+def explore(fn, max_paths=20000, stats=None, reset=None):
     """Run fn(ctx) once per feasible path (depth-first re-execution).
 
     fn must be a pure function of the decision sequence.  Returns Stats.
@@ -182,6 +182,8 @@ def explore(fn, max_paths=20000, stats=None):
     while True:
         ctx = Ctx(prefix, stats)
         Ctx.cur = ctx
+        if reset is not None:
+            reset()              # module-level state of the code under test must not leak between paths
         try:
             out = fn(ctx)
             if ctx.aborted:
